@@ -84,6 +84,12 @@ def _machine(cfg: HistoryProperty, res: ShardResult, max_rules: int):
             def probe(self, kind, vclass, vsel, tclass, tsel, csel):
                 self._do(["probe", kind, vclass, vsel, tclass, tsel, csel])
 
+        if cfg.probes and cfg.instr_bias.get("batches"):
+
+            @rule(ds=st.lists(st.tuples(i_args["kind"], i_args["vclass"], i_args["vsel"], i_args["tclass"], i_args["tsel"], i_args["csel"]).map(list), min_size=2, max_size=5))
+            def probe_batch(self, ds):
+                self._do(["probeN", ds])
+
         if cfg.retains:
 
             @rule()
